@@ -454,8 +454,23 @@ func runC04(r *vfw.Run) {
 				if rec != nil && rec.Total != nil {
 					byCat, catExcess := rec.Excess()
 					only32 := len(byCat) > 0
-					for c := range byCat {
+					for c, d := range byCat {
 						if !oracle.Float32WeightCategories[c] {
+							only32 = false
+							continue
+						}
+						// ... and only by what float32 accumulation can lose: each of the n additions into the weight
+						// total loses at most 2^-24 of it, so the shares can overshoot the allotted amount by at most about
+						// n * 2^-24 of it (taken with a factor 4 of slack); anything larger is another defect
+						al := rec.Allotted[c]
+						if al == nil || al.Sign() == 0 {
+							only32 = false
+							continue
+						}
+						lim := new(big.Int).Mul(al, big.NewInt(int64(4*(rec.Payments[c]+1))))
+						lim.Rsh(lim, 24)
+						lim.Add(lim, big.NewInt(int64(rec.Payments[c]+1))) // integer truncation of each payment
+						if d.Cmp(lim) > 0 {
 							only32 = false
 						}
 					}
@@ -511,7 +526,11 @@ func runC05(r *vfw.Run) {
 	lr.l.MaxTxs = 8
 	n0 := lr.nodes[0]
 	nontrivial := false
+	drained := r.Choose("c05.drainedactivation", 2) == 0
 	lr.loop("", func(rr *scen.RoundResult) bool {
+		if drained {
+			lr.l.SeedDrainedActivation(lr.nodes) // takes effect from the next round on
+		}
 		for i, e := range replayTxs(r, n0, rr.Prev, rr.Block) {
 			if e.err != nil {
 				continue
